@@ -158,6 +158,9 @@ def shards(tier):
     # (3) hypothesis
     for i in range(8):
         out.append({"kind": "hyp", "n": 4000 if quick else 150000})
+    if not quick:
+        for i in range(4):
+            out.append({"kind": "fuzz", "seconds": 240})
     return out
 
 
@@ -184,6 +187,9 @@ def run_shard(desc, seed, tier):
         acc.add(case, v)
 
     kind = desc["kind"]
+    if kind == "fuzz":
+        from vf.core import fuzz_shard
+        return fuzz_shard("c02", desc["seconds"], seed)
     if kind == "enum":
         state, last, cdata = desc["cfg"]
         L = desc["len"]
